@@ -571,6 +571,14 @@ theorem shiftRight_eq (dflt : α) (P R S : List α) (n : Int) :
         ∧ ((n ≤ 0 ∨ n ≥ (R.length : Int)) → Z ++ (Spec.shiftRight R n).1 = R) :=
   shiftRight_spec dflt P R S n
 
+/-- shift_right on a value type without default constructor (no clean-up of the vacated slots): same contract -/
+theorem shiftRightNoFill_eq (P R S : List α) (n : Int) :
+    ∃ Z, shiftRightNoFill (P ++ R ++ S) P.length (P.length + R.length) n
+          = .ok (P ++ (Z ++ (Spec.shiftRight R n).1) ++ S, P.length + (Spec.shiftRight R n).2)
+        ∧ Z.length = (Spec.shiftRight R n).2
+        ∧ ((n ≤ 0 ∨ n ≥ (R.length : Int)) → Z ++ (Spec.shiftRight R n).1 = R) :=
+  shiftRightNoFill_spec P R S n
+
 /-! ## unique_copy / unique / adjacent_find / is_sorted_until / is_sorted -/
 
 theorem uniqueCopy_eq (pred : α → α → Bool) (P R S : List α) :
